@@ -180,7 +180,10 @@ func (fr *frame) topoOrder() []*ssa.BasicBlock {
 	var dfs func(b *ssa.BasicBlock)
 	dfs = func(b *ssa.BasicBlock) {
 		seen[b] = true
-		for _, s := range b.Succs {
+		// visit successors in reverse so that, in reverse postorder, loop bodies
+		// come before the code after the loop
+		for i := len(b.Succs) - 1; i >= 0; i-- {
+			s := b.Succs[i]
 			if !seen[s] && !backEdge(b, s) {
 				dfs(s)
 			}
@@ -297,7 +300,12 @@ func (fr *frame) assumeWF(v *Val, st *State) {
 // name gives the scalar value a named constant so that terms stay small.
 func (fr *frame) named(v ssa.Value, val *Val) *Val {
 	if val.T != nil {
-		val.T = fr.vc.define(fr.sym(v), val.T)
+		switch val.T.Op {
+		case "mkslice", "mkstr", "mkiface":
+			// keep constructors visible so that selectors fold
+		default:
+			val.T = fr.vc.define(fr.sym(v), val.T)
+		}
 	}
 	return val
 }
@@ -723,7 +731,25 @@ func (fr *frame) enterLoop(b *ssa.BasicBlock, li *loopInfo, st *State, phiIn fun
 			if pre.get(k) != st.heap.get(k) {
 				x := Sym(freshBinder("x"), SInt)
 				vc.assume(True, Forall([]Binder{{x.Op, SInt}}, Implies(Select(pre.get(k), x), Select(st.heap.get(k), x)),
-					[]*Term{Select(st.heap.get(k), x)}))
+					[]*Term{Select(st.heap.get(k), x)}, []*Term{Select(pre.get(k), x)}))
+			}
+		}
+	}
+	if !fr.isDiscovery && fr.assignsOK != nil && !li.modAll {
+		// frame auto-invariant: locations alive at entry and outside the assigns
+		// clause still hold their entry values (every store is frame-checked)
+		for _, k := range li.mod {
+			pfx := k[:2]
+			switch {
+			case pfx == "F:" || pfx == "E:" || pfx == "C:" || strings.HasPrefix(k, "MV:") || strings.HasPrefix(k, "MH:"):
+				r := Sym(freshBinder("r"), SInt)
+				ok := fr.assignsOK(k, r, st)
+				cur := Select(st.heap.get(k), r)
+				vc.assume(True, Forall([]Binder{{r.Op, SInt}}, Implies(Not(ok), Eq(cur, Select(fr.entry.get(k), r))), []*Term{cur}))
+			case pfx == "G:":
+				if fr.assignsOK(k, nil, st).Op != "true" {
+					vc.assume(True, Eq(st.heap.get(k), fr.entry.get(k)))
+				}
 			}
 		}
 	}
